@@ -458,6 +458,33 @@ static void op_allocfail(const V &a, V &r) {
 }
 #endif
 
+// exitlife variant full lambda : objects that refer to library-owned (collector-registered) parameter objects are released DURING PROCESS TERMINATION, by
+//   clean-up code the application registered before it first used the library: variant 0 = atexit() at the top of the program, 1 = a static RAII holder.
+//   Must be the first library use of the process (feed it as the only line); the interesting part happens after main returns.
+static struct ExitBag { TFheGateBootstrappingParameterSet *P; LweKey *lk; TGswKey *gk; LweBootstrappingKey *bk; LweSample *ct; TFheGateBootstrappingSecretKeySet *sk; } g_exitbag;
+static void exit_cleanup() {
+    ExitBag &g = g_exitbag;
+    if (g.ct) delete_gate_bootstrapping_ciphertext_array(4, g.ct);
+    if (g.bk) delete_LweBootstrappingKey(g.bk);
+    if (g.gk) delete_TGswKey(g.gk);
+    if (g.lk) delete_LweKey(g.lk);
+    if (g.sk) delete_gate_bootstrapping_secret_keyset(g.sk);
+    if (g.P) delete_gate_bootstrapping_parameters(g.P);          // the set itself is the caller's; the three parameter objects inside stay with the library
+    g = ExitBag();
+}
+struct ExitHolder { ~ExitHolder() { exit_cleanup(); } };
+static void op_exitlife(const V &a, V &r) {
+    int variant = a.size() > 0 ? (int) a[0] : 0, full = a.size() > 1 ? (int) a[1] : 0, lambda = a.size() > 2 ? (int) a[2] : 128;
+    if (variant == 0) atexit(exit_cleanup); else { static ExitHolder holder; (void) holder; }
+    TFheGateBootstrappingParameterSet *P = new_default_gate_bootstrapping_parameters(lambda);
+    ExitBag &g = g_exitbag; g.P = P;
+    g.lk = new_LweKey(P->in_out_params); lweKeyGen(g.lk);
+    g.gk = new_TGswKey(P->tgsw_params); tGswKeyGen(g.gk);
+    g.bk = new_LweBootstrappingKey(P->ks_t, P->ks_basebit, P->in_out_params, P->tgsw_params);
+    g.ct = new_gate_bootstrapping_ciphertext_array(4, P);
+    if (full) { g.sk = new_random_gate_bootstrapping_secret_keyset(P); bootsSymEncrypt(g.ct, 1, g.sk); bootsNAND(g.ct + 1, g.ct, g.ct, &g.sk->cloud); r.push_back(bootsSymDecrypt(g.ct + 1, g.sk)); }
+    r.push_back(1);
+}
 int main() {
     std::string line;
     while (std::getline(std::cin, line)) {
@@ -465,6 +492,7 @@ int main() {
         V a; ll x; while (is >> x) a.push_back(x);
         V r;
         if (op == "life") op_life(a, r);
+        else if (op == "exitlife") op_exitlife(a, r);
         else if (op == "small") op_small(a, r);
         else if (op == "fftkeylife") op_fftkeylife(a, r);
         else if (op == "threads") op_threads(a, r);
